@@ -36,6 +36,8 @@ LEVEL_TEXT = ("PARTIAL by DESIGN §8's definition: (1) the barrier clause is pro
               "stages and that a wake-up ends it at once. Unguarded theorems for ALL step lists of one object's stream (any versions, "
               "listed or streamed events, arrival times, pressure, wake-ups incl. the exiting watcher's, pending patches, handler "
               "durations, sleep lateness, idle retirements, background patches, any consistency_timeout): interrupted_never_achieved, "
+              "released_after_deadline(+_run) (fix 5dff3c1: at or after the deadline, with no pending patch, the changing stage is entered "
+              "whatever was accumulated; deadline_with_patch_regression_witness on the pre-fix verdict), "
               "disabled (T=0), deadline_monotone, retire_after_deadline, never_arrives, noop_patch_does_not_arm, "
               "noop_cycle_leaves_consistent (fix 460c956) with noop_stall_regression_witness on the pre-fix feedback; "
               "listed_view_is_not_consistency_witness (a worker that trusts (re-)listed events breaks the barrier: seeded change C14c). "
@@ -44,7 +46,8 @@ LEVEL_TEXT = ("PARTIAL by DESIGN §8's definition: (1) the barrier clause is pro
               "theorems are checked on the real traces.")
 THEOREMS = [("Kopf.Props.C07", "Kopf.C07." + n) for n in [
     "barrier_partial", "barrier_background_witness", "barrier_every_patch_partial", "barrier_view_partial",
-    "barrier_every_patch_view_partial", "not_delayed_kopf", "interrupted_never_achieved", "disabled",
+    "barrier_every_patch_view_partial", "not_delayed_kopf", "interrupted_never_achieved", "released_after_deadline", "released_after_deadline_run",
+    "deadline_with_patch_regression_witness", "disabled",
     "deadline_monotone", "retire_after_deadline", "never_arrives", "listed_view_is_not_consistency_witness",
     "noop_patch_does_not_arm", "noop_cycle_leaves_consistent", "noop_stall_regression_witness"]]
 RULE = ("seeded whole-operator scenarios: T in {0, 0.25, 1, 5} s; request latency 1-64 ticks, response latency 0-48 ticks; echo delay of "
@@ -327,7 +330,21 @@ def oracle(ctx: Ctx, sc: dict, tr: dict) -> None:
             if not held:
                 continue
             earlier = [p for p in o["own"] if float(p["t_applied"]) <= cyc["t0"] and p["cycle"] < cyc["i"]]
-            if not earlier or earlier[-1]["cycle"] in releasing or not c7["patch_init_empty"] or cyc["reason"] == "gone":
+            if not earlier or not c7["patch_init_empty"] or cyc["reason"] == "gone":
+                continue
+            # "… or the consistency timeout has elapsed": the worker counts it from the moment the processor returned with
+            # the patched version (cycle end `t1` of that iteration, never earlier than the PATCH itself). An iteration that
+            # starts at or after that — with no patch pending — must not be held back, whatever it accumulates (fix 5dff3c1).
+            t1_last = max(c2["t1"] for c2 in cycles if c2["i"] == earlier[-1]["cycle"])
+            if cyc["t0"] >= t1_last + T:
+                ctx.oracle_fail(
+                    f"change handlers were held back at t={cyc['t0']} on resourceVersion {cyc['rv']} although the consistency timeout "
+                    f"{T} s had elapsed since the worker's last own PATCH (result {earlier[-1]['applied_rv']}, returned to the worker at "
+                    f"t={t1_last}) and no patch was pending",
+                    {"scenario": sc, "cycle": cyc["i"], "patch": earlier[-1]},
+                    {"site": "process_resource_causes", "shape": "change handlers held back after the consistency timeout has elapsed"})
+                continue
+            if earlier[-1]["cycle"] in releasing:
                 continue
             last = earlier[-1]
 
@@ -343,9 +360,6 @@ def oracle(ctx: Ctx, sc: dict, tr: dict) -> None:
                     f"patch was pending",
                     {"scenario": sc, "cycle": cyc["i"], "patch": last},
                     {"site": "queueing.worker", "shape": "change handlers held back although the own last patch's version has come back"})
-            elif c7["consistency_time"] is not None and cyc["t0"] >= c7["consistency_time"]:
-                ctx.count("held_iteration", "an own patch's version was lost with a broken stream AND the deadline has passed, still held "
-                                            "(patch non-empty at the barrier: no sleep, hence no timeout) — liveness observation")
             elif int(cyc["rv"]) >= int(last["applied_rv"]):
                 ctx.count("held_iteration", "newer view, the patched version itself was lost with a broken stream (held until the timeout)")
             else:
@@ -639,8 +653,9 @@ def evaluate(ctx: Ctx, scenarios: list[dict], results: list[dict], tie: bool = T
             ctx.count("barrier", "no deadline" if not shape["given"] else
                       ("slept:" + shape["slept"]) if shape["slept"] else "deadline set, no sleep (pending patch / not required / gone)")
             ctx.count("decision", "held back" if o["held"] else "change handlers entered" if o["entered"] is not None else "no changing cause")
-            if o["given"] is not None and o["held"] and st["event"]["now"] + st["event"]["dur"] >= o["given"]:
-                ctx.count("held_iteration", "held although the deadline has passed (patch non-empty at the barrier: no sleep, no timeout)")
+            if o["given"] is not None and o["given"] != 0 and st["event"]["now"] + st["event"]["dur"] >= o["given"]:
+                ctx.count("release", "deadline already passed when the barrier is reached: no sleep"
+                          + (" (patch non-empty: released since fix 5dff3c1)" if not st["event"]["patchMid"] else ""))
             if impl.get("eos_wake"):
                 ctx.count("barrier_sleep", "interrupted by the exiting watcher (pressure + EOS): held back")
             if shape["reset"]:
